@@ -174,7 +174,7 @@ def summarize_function(rep):
             continue
         lab = norm_label(o["name"])
         st = labels.get(lab, "discharged")
-        if o["status"] != "discharged":
+        if o["status"] not in ("discharged",):
             st = o["status"] if st == "discharged" else st
         labels[lab] = st
     return labels
@@ -238,10 +238,17 @@ def run_property(prop, tier, seed):
                 lines.append(f"CHECKER-ERROR property={prop} function={rep.qual} {rep.error}")
                 errors += 1
             continue
-        vac = [o for o in rep.obligations if o["status"] == "vacuous"]
-        if vac:
-            lines.append(f"CHECKER-ERROR property={prop} vacuous hypotheses in {vac[0]['name']}")
-            errors += 1
+        # vacuity guard: per case, at least one returning path must have satisfiable hypotheses
+        # (individual unsatisfiable paths are infeasible paths the quick pruning did not catch)
+        covers = {}
+        for o in rep.obligations:
+            if o["kind"] == "cover":
+                case = o["name"].split("[", 1)[1].split("]", 1)[0] if "[" in o["name"] else "-"
+                covers.setdefault(case, []).append(o["status"])
+        for case, sts in covers.items():
+            if sts and all(st == "vacuous" for st in sts):
+                lines.append(f"CHECKER-ERROR property={prop} vacuous hypotheses on every returning path of {rep.qual}[{case}]")
+                errors += 1
         if nf == 0:
             lines.append(f"CHECKER-ERROR property={prop} zero obligations generated for {rep.qual}")
             errors += 1
@@ -336,9 +343,14 @@ def run_property(prop, tier, seed):
     else:
         level = plan.get("level", "proof") if proved_all else "other"
     used_contracts = sorted(t for t in trusted if t.startswith("contract:"))
-    verified_here = {f"contract:{r.qual}" for r in reports if not r.error and all(o["status"] in ("discharged", "covered") for o in r.obligations)}
+    verified_here = {f"contract:{r.qual}" for r in reports if not r.error and all(o["status"] in ("discharged", "covered", "vacuous") for o in r.obligations)}
     trusted_base = sorted(t for t in trusted if not t.startswith("contract:"))
-    trusted_base += [f"{c} (callee contract; {'verified in this run' if c in verified_here else 'assumed here, verified under its own property'})" for c in used_contracts]
+    def _cdesc(c):
+        q = c.split(":", 1)[1]
+        if getattr(registry.get(q), "assumed", False):
+            return f"{c} (ASSUMED contract: body outside the executor's reach; validated only by the bounded stand-in)"
+        return f"{c} (callee contract; {'verified in this run' if c in verified_here else 'verified under its own property'})"
+    trusted_base += [_cdesc(c) for c in used_contracts]
     trusted_base += [f"dropped: {d}" for d in sorted(dropped)]
     trusted_base += [f"inlined callee body (executed, not assumed): {q}" for q in sorted(inlined)]
     trusted_base += list(plan.get("lemmas", []))
